@@ -20,7 +20,7 @@ import (
 
 func init() {
 	register(&Prop{ID: "C14", Run: c14Run,
-		Rule: "foreach: item source {literal items, list query, dotted list query, leaf query, container query, list of containers, missing path} x variable {default, named} x body {ext trace, log, both} + logging child + failing position {none, top-level abort/ext-fail (first item), conditional child at the first flagged item, non-boolean condition}; loop: bound n in 0..6 x failure in iteration k (body or post) x counter written by post or body x with/without init; call: argsPath {default, single key, dotted 2 and 3, templated} x static/templated argument x nested callee with its own argsPath x failure {none, inner, outer} x pre-existing data at the path's parent; callrep: ONE call operation that runs m = 0..5 times with argument templates (top-level and nested) whose input changes between the runs — in a loop body (input = counter), in a forEach body (input = item; call directly among the body's operations or in a `steps` child; literal items / list query) or as the same operation value passed to Execute repeatedly — x argsPath x failure from the k-th run on: the m-th run must see the arguments rendered against the data of the m-th run (closed-form trace); defs: all sequences of length<=4 over {define f=first, define f=second, define g, call f, call g, call undefined}; nest: 1..3 iteration mechanisms nested in each other — forEach (literal items / list query, default or custom variable) / loop (bound 0..3) / call, each holding the next one among its body's OPERATIONS or in a `steps` child — whose innermost body reads every variable in scope when it runs (call arguments, or a template operation printed by a callable), x optional ext trace per body x failure from the k-th innermost run on: closed-form trace = product of the layers' items in order up to the failure, variables and arguments gone, nothing else disturbed; rand: random nested programs (forEach in forEach, loops and calls inside bodies, set/template bodies, depth<=3) compared with the model and with the independent Go reference interpreter of c12_ref.go (direct predicate; the reference answers inside its domain: plain dotted key paths, container queries with at most one key). Every program runs twice (Go structs, generated YAML). Non-trivial: at least one iteration / call actually executes. Distinct = distinct canonical case JSON.",
+		Rule: "foreach: item source {literal items, list query, dotted list query, query of a list inside a list (`nest[1]`), query of a SPARSE list the program itself fills through indexed paths (`xs[3]`; the slots in between are padding), leaf query, container query, list of containers, missing path} x NULL entries (YAML nulls, never-written slots, a null leaf; one, several, all of them — a null entry is an item) x variable {default, named} x body {ext trace, log, both} + logging child + failing position {none, top-level abort/ext-fail (first item), conditional child at the first flagged item, non-boolean condition}, with the direct predicates closed-form trace AND number of passes through the body == number of items (counted on listener events, whatever the body prints); loop: bound n in 0..6 x failure in iteration k (body or post) x counter written by post or body x with/without init; call: argsPath {default, single key, dotted 2 and 3, templated} x static/templated argument x nested callee with its own argsPath x failure {none, inner, outer} x pre-existing data at the path's parent; callrep: ONE call operation that runs m = 0..5 times with argument templates (top-level and nested) whose input changes between the runs — in a loop body (input = counter), in a forEach body (input = item; call directly among the body's operations or in a `steps` child; literal items / list query) or as the same operation value passed to Execute repeatedly — x argsPath x failure from the k-th run on: the m-th run must see the arguments rendered against the data of the m-th run (closed-form trace); defs: all sequences of length<=4 over {define f=first, define f=second, define g, call f, call g, call undefined}; nest: 1..3 iteration mechanisms nested in each other — forEach (literal items / list query whose list may hold null entries, default or custom variable) / loop (bound 0..3) / call, each holding the next one among its body's OPERATIONS or in a `steps` child — whose innermost body reads every variable in scope when it runs (call arguments, or a template operation printed by a callable), x optional ext trace per body x failure from the k-th innermost run on: closed-form trace = product of the layers' items in order up to the failure, variables and arguments gone, nothing else disturbed; rand: random nested programs (forEach in forEach — also over lists with null entries and over a null leaf —, loops and calls inside bodies, set/template bodies, conditions that may be blank, depth<=3) compared with the model and with the independent Go reference interpreter of c12_ref.go (direct predicate; the reference answers inside its domain: plain dotted key paths, container queries with at most one key). Every program runs twice (Go structs, generated YAML). Non-trivial: at least one iteration / call actually executes. Distinct = distinct canonical case JSON.",
 		Assumptions: []string{
 			"template semantics owned by the model: literal text and {{ .a.b }} field chains of scalars; strconv.ParseBool",
 			"loop counters are written by the harness' own ext action `inc` (data[id]++, data[id_go] := data[id] < n, data[id_end] := !(data[id] < n)), mirrored by the model",
@@ -36,15 +36,22 @@ const c14Fuel = 100000
 // ---------------------------------------------------------------- foreach
 
 type c14FE struct {
-	Source string   `json:"source"` // items | list | deep | leaf | cont | clist | missing
+	Source string   `json:"source"` // items | list | deep | nested | sparse | leaf | cont | clist | missing
 	Items  []string `json:"items"`  // item texts (clist: the n fields; cont: the keys)
-	Bad    []bool   `json:"bad"`    // clist: per item, whether the failing child's condition holds
-	Var    *string  `json:"var"`
-	Ext    bool     `json:"ext"`   // body has `ext trace E`
-	Log    bool     `json:"log"`   // body has `log L:<item>`
-	Child  bool     `json:"child"` // body has a child (order 5) logging C:<item>
-	Fail   string   `json:"fail"`  // "" | abort | extfail (top level, every item) | cabort | cext (child, order 1, conditional) | cond (child with non-boolean condition)
-	When   string   `json:"when"`  // condition of the failing child for non-clist sources: "" (none) | true | false
+	// per item: the entry of the queried list (list, deep, nested, sparse) / the queried leaf is a NULL.  A null
+	// entry is an item like any other: the body runs for it, with the variable bound to a null.
+	//   list, deep  the data holds the list, YAML nulls included
+	//   nested      the list sits inside another list (query `nest[1]`)
+	//   sparse      the list does not exist at first: the program's own leading operations write the non-null
+	//               items through indexed paths (`xs[3]`), the slots in between are the padding that leaves
+	Null  []bool  `json:"null,omitempty"`
+	Bad   []bool  `json:"bad"` // clist: per item, whether the failing child's condition holds
+	Var   *string `json:"var"`
+	Ext   bool    `json:"ext"`   // body has `ext trace E`
+	Log   bool    `json:"log"`   // body has `log L:<item>`
+	Child bool    `json:"child"` // body has a child (order 5) logging C:<item>
+	Fail  string  `json:"fail"`  // "" | abort | extfail (top level, every item) | cabort | cext (child, order 1, conditional) | cond (child with non-boolean condition)
+	When  string  `json:"when"`  // condition of the failing child for non-clist sources: "" (none) | true | false
 }
 
 func c14VarName(v *string) string {
@@ -61,20 +68,76 @@ func (p *c14FE) ref() string {
 	return "{{ ." + c14VarName(p.Var) + " }}"
 }
 
-func (p *c14FE) data() W {
+func (p *c14FE) nullable() bool {
+	switch p.Source {
+	case "list", "deep", "nested", "sparse", "leaf":
+		return true
+	}
+	return false
+}
+
+func (p *c14FE) isNull(i int) bool { return p.nullable() && i < len(p.Null) && p.Null[i] }
+
+// what the templates of the body print for item i
+func (p *c14FE) text(i int) string {
+	if p.isNull(i) {
+		return "<no value>"
+	}
+	return p.Items[i]
+}
+
+// norm brings a (possibly shrunk) record back into the domain
+func (p *c14FE) norm() {
+	if !p.nullable() {
+		p.Null = nil
+	}
+	if len(p.Null) > len(p.Items) {
+		p.Null = p.Null[:len(p.Items)]
+	}
+	if p.Source == "sparse" {
+		// written by template operations: an empty text cannot be written; nothing pads beyond the last written slot
+		for len(p.Null) < len(p.Items) {
+			p.Null = append(p.Null, false)
+		}
+		for i, it := range p.Items {
+			if it == "" || strings.Contains(it, "{{") {
+				p.Null[i] = true
+			}
+		}
+		for len(p.Items) > 0 && p.Null[len(p.Items)-1] {
+			p.Items, p.Null = p.Items[:len(p.Items)-1], p.Null[:len(p.Items)-1]
+		}
+	}
+}
+
+// data: the document the executor starts with; atLoop = the document as it is when the forEach starts (differs
+// for the sparse source, whose list the program itself writes)
+func (p *c14FE) data() W { return p.dataAt(false) }
+
+func (p *c14FE) dataAt(atLoop bool) W {
 	d := map[string]any{"keep": map[string]any{"x": 1}, "other": "o"}
 	items := []any{}
-	for _, s := range p.Items {
-		items = append(items, s)
+	for i, s := range p.Items {
+		if p.isNull(i) {
+			items = append(items, nil)
+		} else {
+			items = append(items, s)
+		}
 	}
 	switch p.Source {
 	case "list":
 		d["xs"] = items
+	case "sparse":
+		if atLoop && len(items) > 0 {
+			d["xs"] = items
+		}
 	case "deep":
 		d["deep"] = map[string]any{"er": map[string]any{"xs": items}}
+	case "nested":
+		d["nest"] = []any{"pad", items, nil}
 	case "leaf":
 		if len(p.Items) > 0 {
-			d["x"] = p.Items[0]
+			d["x"] = items[0]
 		}
 	case "cont":
 		m := map[string]any{}
@@ -101,10 +164,12 @@ func (p *c14FE) prog() []c12Op {
 			its = append(its, c12VoR{Val: s})
 		}
 		op.Items = &its
-	case "list", "clist":
+	case "list", "clist", "sparse":
 		op.Query = &c12VoR{Val: "xs"}
 	case "deep":
 		op.Query = &c12VoR{Val: "deep.er.xs"}
+	case "nested":
+		op.Query = &c12VoR{Val: "nest[1]"}
 	case "leaf":
 		op.Query = &c12VoR{Val: "x"}
 	case "cont":
@@ -147,12 +212,29 @@ func (p *c14FE) prog() []c12Op {
 		body.Children = append([]c12Act{{Name: "tail", Order: 5, Ops: []c12Op{{K: "log", Msg: "C:" + p.ref()}}}}, body.Children...)
 	}
 	op.Body = body
-	return []c12Op{op}
+	var out []c12Op
+	if p.Source == "sparse" {
+		// the list is filled through indexed paths, highest index first when there is an even number of items
+		for j := range p.Items {
+			i := j
+			if len(p.Items)%2 == 0 {
+				i = len(p.Items) - 1 - j
+			}
+			if !p.isNull(i) {
+				out = append(out, c12Op{K: "template", Tmpl: p.Items[i], Path: fmt.Sprintf("xs[%d]", i)})
+			}
+		}
+	}
+	return append(out, op)
 }
 
-// expected (r / l / t) events, in closed form; failed = the run must return an error
+// expected (r / l / t) events, in closed form; failed = the run must return an error; iterations = how often
+// the body must have started: once per item — nulls included — up to and including the failing one
 func (p *c14FE) expect() (evs [][]any, failed bool, iterations int) {
-	items := p.Items
+	items := make([]string, len(p.Items))
+	for i := range p.Items {
+		items[i] = p.text(i)
+	}
 	switch p.Source {
 	case "leaf":
 		if len(items) > 1 {
@@ -686,7 +768,7 @@ func (g *c14Gen) act(depth int) *c12Act {
 	r := g.r
 	a := &c12Act{Name: g.fresh("a")}
 	if r.Intn(5) == 0 {
-		a.When = sp(pick(r, []string{"true", "false", "{{ .flagT }}", "{{ .flagF }}", "{{ .nokey }}"}))
+		a.When = sp(pick(r, []string{"true", "false", "{{ .flagT }}", "{{ .flagF }}", "{{ .nokey }}", "true", "false", "{{ .flagT }}", "{{ .flagF }}", "", "  "}))
 	}
 	a.Ops = g.simpleOps(true)
 	if depth > 0 && r.Intn(2) == 0 {
@@ -742,9 +824,9 @@ func (g *c14Gen) compound(depth int) c12Op {
 			}
 			op.Items = &its
 		case 1:
-			op.Query = &c12VoR{Val: "xs"}
+			op.Query = &c12VoR{Val: pick(r, []string{"xs", "xs", "ns"})}
 		case 2:
-			op.Query = &c12VoR{Val: pick(r, []string{"name", "keep.x", "nokey", "deep.er.xs", "empty"})}
+			op.Query = &c12VoR{Val: pick(r, []string{"name", "keep.x", "nokey", "deep.er.xs", "empty", "nul"})}
 		case 3:
 			op.Query = &c12VoR{IsRef: true, Ref: pick(r, []string{"qpath", "nokey", "keep"})}
 		case 4:
@@ -802,8 +884,10 @@ func (g *c14Gen) compound(depth int) c12Op {
 
 func c14RandData() W {
 	return plainWire(map[string]any{"name": "N", "flagT": true, "flagF": false, "keep": map[string]any{"x": 1}, "where": "dyn.z",
-		"cfg": map[string]any{"mode": "m1"}, "xs": []any{"a", 2, true, "d"}, "deep": map[string]any{"er": map[string]any{"xs": []any{"p", "q"}}},
-		"qpath": "xs", "empty": []any{}, "one": map[string]any{"only": 1}, "tmplv": "{{ .name }}"})
+		"cfg": map[string]any{"mode": "m1"}, "xs": []any{"a", 2, true, "d"}, "deep": map[string]any{"er": map[string]any{"xs": []any{"p", nil, "q"}}},
+		"qpath": "xs", "empty": []any{}, "one": map[string]any{"only": 1}, "tmplv": "{{ .name }}",
+		// lists with null entries (items like any other) and a null leaf
+		"ns": []any{nil, "u", nil, false}, "nul": nil})
 }
 
 // ---------------------------------------------------------------- run
@@ -813,13 +897,30 @@ func c14Run(c *Ctx) {
 	strs := []string{"a", "b", "c", "d", "e", "zz"}
 	for i := 0; i < c.N(900); i++ {
 		c.Tick()
-		p := c14FE{Source: pick(r, []string{"items", "list", "deep", "leaf", "cont", "clist", "clist", "missing"}),
+		p := c14FE{Source: pick(r, []string{"items", "list", "list", "deep", "nested", "sparse", "leaf", "cont", "clist", "clist", "missing"}),
 			Ext: r.Intn(2) == 0, Log: r.Intn(4) > 0, Child: r.Intn(2) == 0}
 		n := r.Intn(5)
 		perm := r.Perm(len(strs))
 		for j := 0; j < n; j++ {
 			p.Items = append(p.Items, strs[perm[j]])
 			p.Bad = append(p.Bad, false)
+		}
+		if p.nullable() && n > 0 && r.Intn(2) == 0 {
+			// null entries: YAML nulls in the list, never-written slots of a sparse list, a null leaf
+			p.Null = make([]bool, n)
+			switch r.Intn(4) {
+			case 0:
+				for j := range p.Null { // nothing but nulls
+					p.Null[j] = true
+				}
+			default:
+				p.Null[r.Intn(n)] = true
+				for j := range p.Null {
+					if r.Intn(3) == 0 {
+						p.Null[j] = true
+					}
+				}
+			}
 		}
 		if r.Intn(3) > 0 {
 			p.Var = sp(pick(r, []string{"it", "item", "v_1", "forEach", "X"}))
@@ -995,7 +1096,9 @@ func c14Eval(c *Ctx, kind string, raw []byte) {
 			}
 			p.Items = it
 		}
+		p.norm()
 		data, prog = p.data(), p.prog()
+		atLoop := p.dataAt(true)
 		want, failed, iters := p.expect()
 		if iters > 0 {
 			c.Nontrivial()
@@ -1003,10 +1106,49 @@ func c14Eval(c *Ctx, kind string, raw []byte) {
 		c.Dist("foreach:source:" + p.Source)
 		c.Dist("foreach:fail:" + p.Fail)
 		c.Dist(fmt.Sprintf("foreach:iterations:%d", iters))
+		nulls := 0
+		for i := range p.Items {
+			if p.isNull(i) {
+				nulls++
+			}
+		}
+		if nulls > 0 {
+			c.Dist("foreach:null-items:" + p.Source)
+			if nulls == len(p.Items) {
+				c.Dist("foreach:null-items:all-of-them")
+			}
+		}
 		multiset = p.Source == "cont"
 		skipTr = multiset && failed && len(p.Items) > 1 // which key is visited first is unspecified
 		vname := c14VarName(p.Var)
+		nprog := len(prog)
 		direct = func(run *c12RunRes, v string) {
+			if len(run.errs) != nprog {
+				return
+			}
+			// the operations that come before the forEach (sparse source: the indexed writes) are not under test
+			for _, e := range run.errs[:nprog-1] {
+				if e != nil {
+					c.Dist("foreach:setup-failed(skipped)")
+					return
+				}
+			}
+			feErr := run.errs[nprog-1]
+			// "forEach runs its body once per item": as often as the item source has items — a null entry, a slot
+			// that was never written, an entry of a list inside a list are items —, counted on the listener's
+			// events alone (every pass through the body ends with the body's `steps`, or with the operation
+			// that failed), whatever the body prints
+			if roots, problem := c12Parse(run.rec); problem == "" && len(roots) == nprog {
+				passes := 0
+				kids := roots[nprog-1].kids
+				for i, k := range kids {
+					if k.label == "steps" || (i == len(kids)-1 && k.hasE) {
+						passes++
+					}
+				}
+				c.Direct("forEach-body-once-per-item"+v, passes == iters,
+					map[string]any{"bodyStarted": passes, "items(up to the failing one)": iters, "source": p.Source, "items": atLoop, "trace": run.tr})
+			}
 			got := c14Project(run.tr)
 			if !multiset {
 				// "the trace of (item, operation) pairs equals items x body in order up to the failure"
@@ -1023,11 +1165,11 @@ func c14Eval(c *Ctx, kind string, raw []byte) {
 				c.Direct("forEach-container-each-key-once"+v, canon(c14SortedEvents(g)) == canon(c14SortedEvents(w)),
 					map[string]any{"got": got, "want(any order)": want})
 			}
-			c.Direct("forEach-error-iff-failure"+v, (run.errs[0] != nil) == failed, fmt.Sprint(run.errs[0]))
+			c.Direct("forEach-error-iff-failure"+v, (feErr != nil) == failed, fmt.Sprint(feErr))
 			// "when either finishes, normally or with an error, the variable … [is] gone"
 			c.Direct("forEach-variable-gone"+v, run.data.Lookup(vname) == nil, map[string]any{"var": vname, "data": run.dataWire()})
 			// "… and the mechanism itself has disturbed no other data" (these bodies have no data effects)
-			c.Direct("forEach-no-other-data-disturbed"+v, canon(run.dataWire()) == canon(data), run.dataWire())
+			c.Direct("forEach-no-other-data-disturbed"+v, canon(run.dataWire()) == canon(atLoop), run.dataWire())
 		}
 	case "loop":
 		var p c14Loop
